@@ -60,6 +60,10 @@ MUTATIONS = [
     ("M21", "Rcmd", RC, "find_host", "inverted match", "strcmp (x->hostname, hostname) == 0", "strcmp (x->hostname, hostname) != 0"),
     ("M23", "Hostlist", HL, "host_prefix_end", ">= becomes >: index 0 never tested", "while (idx >= 0 && isdigit", "while (idx > 0 && isdigit"),
     ("M24", "Hostlist", HL, "host_prefix_end", "off by one start", "int idx = strlen(hostname) - 1;", "int idx = strlen(hostname);"),
+    ("M25", "Cbuf", CB, "cbuf_find_unread_line", "byte count of the last line off by one", "m = n;", "m = n - 1;"),
+    ("M26", "Cbuf", CB, "cbuf_find_unread_line", "|| becomes &&: scan does not stop at the line limit",
+     "if ((chars == 0) || (lines == 0)) {", "if ((chars == 0) && (lines == 0)) {"),
+    ("M27", "Cbuf", CB, "cbuf_find_unread_line", "all-or-none test dropped", "if (lines > 0) {\n        return(0);", "if (0) {\n        return(0);"),
     ("M22", "Hostlist", HL, "_zero_padded", "leaves the subset: calls printf", "int n = 1;", "int n = 1; printf(\"x\");"),
 ]
 
@@ -80,6 +84,8 @@ HARMLESS = [
     # equal prefixes imply equal `singlehost` bits, so || and && agree where the test is reached: found by the bridge itself
     ("H13", "Hostlist", HL, "hostrange_within_range", "|| -> && (equivalent after prefix_cmp == 0)", "h1->singlehost || h2->singlehost ? 0 : 1", "h1->singlehost && h2->singlehost ? 0 : 1"),
     ("H14", "Hostlist", HL, "host_prefix_end", "idx-- -> --idx", "idx--;", "--idx;"),
+    ("H15", "Cbuf", CB, "cbuf_find_unread_line", "++n -> n++", "++n;", "n++;"),
+    ("H16", "Cbuf", CB, "cbuf_find_unread_line", "a != b  <->  b != a", "while (i != cb->i_in) {", "while (cb->i_in != i) {"),
     ("H12", "Dsh", DS, "_thd_command_timeout", "nested ifs merged into one condition",
      "if ((command_timeout > 0) && (th->connect != ((time_t) -1))) {\n        if (th->connect + command_timeout < time (NULL))\n            return (1);\n    }",
      "if ((command_timeout > 0) && (th->connect != ((time_t) -1)) && (th->connect + command_timeout < time (NULL)))\n        return (1);"),
